@@ -36,7 +36,7 @@ func main() {
 			"one end closes (full or half close) before/during/after the peer's stream. A class is route x transport x early-data bucket x observed split x " +
 			"who closed first x close mode x observed close timing x size bucket, tallied only after the oracle ran on the case; plus unreachable-target classes",
 		Assumptions: []string{
-			"liveness clauses (bytes delivered while the tunnel is open, EOF propagation, release) are decided by quiescence of all martian goroutines with the proxy timeout at 10 min; per process only the first stuck wait of a signature uses the full window (5 s grace + 6 samples), later ones of the same signature a 1 s window and are only counted",
+			"liveness clauses (bytes delivered while the tunnel is open, EOF propagation, release) are decided by quiescence of all martian goroutines with the proxy timeout at 10 min; per process only the first stuck wait of a signature uses the full window (5 s grace + 6 samples), later ones of the same signature shorter windows (4 samples/0.6 s, then 3 samples/0.1 s) and are only counted; a replay of a single case always uses the full window",
 			"an end that closes while the peer is still streaming uses half-close on TCP (a full close with unread data is a TCP reset, after which delivery of its own bytes is not guaranteed by TCP itself); full close at any time is exercised on the in-memory transport",
 			"bytes the peer sends after an end's half-close are only checked to be an in-order prefix; their complete delivery is recorded, not demanded",
 			"a downstream proxy answering 502 itself is not exercised (the statement's 502+Warning clause is checked for targets / downstream proxies that cannot be dialled)",
